@@ -681,7 +681,15 @@ class SymDatetime(datetime):
         return SymStr([TsFmt(self, fmt)])
 
     def isoformat(self, sep="T", timespec="auto"):
-        return SymStr([TsFmt(self, "iso" + sep)])
+        """a string that parses back to this instant, truncated to the requested resolution"""
+        unit = {"auto": 1, "microseconds": 1, "milliseconds": 1000, "seconds": 10**6, "minutes": 60 * 10**6, "hours": 3600 * 10**6}.get(timespec)
+        if unit is None:
+            raise Unsupported("isoformat(timespec=%r)" % (timespec,))
+        if unit == 1:
+            return SymTsStr(self)
+        loc = self._local_us()
+        trunc = floordiv(loc, unit, "trunc").scale(unit)
+        return SymTsStr(SymDatetime(trunc - self.off.scale(US_PER_MIN), self.off))
 
     def __vf_format__(self, spec):
         if spec == "":
